@@ -37,6 +37,7 @@ func propC13() Property {
 			{ID: "C13-R9", Desc: "a cloned group item is empty (tag and template only)", Min: 1, Run: c13R9},
 			{ID: "C13-R10", Desc: "group definitions are built per occurrence, never reused by name (= C19-R8)", Min: 2, Run: c19R8},
 			{ID: "C13-R11", Desc: "the writer ranges over the entry's own tags; a group is always stored", Min: 2, Run: c13R11},
+			{ID: "C13-R16", Desc: "a group that opens the body starts the body region (= C03-R9)", Min: 2, Run: c03R9},
 			{ID: "C13-R15", Desc: "shared group definitions are never mutated or aliased after construction (= C19-R6)", Min: 5, Run: c19R6},
 			{ID: "C13-R14", Desc: "the end-of-body mark moves over every body field and every field that opens a group window (= C03-R6)", Min: 3, Run: c03R6},
 			{ID: "C13-R13", Desc: "entries created by the group's methods carry the template order", Min: 2, Run: c13R13},
